@@ -979,3 +979,118 @@ class ProjRepair(PContract):
 
 
 CONTRACTS += [ProjRepair()]
+
+
+# ============================================================================= JobsCursor: len / contains / iter / getitem describe one id set
+
+
+class SFilterTok(Sym):
+    """a non-empty parsed filter mapping (opaque)"""
+
+    def sym_truth(self, ex):
+        return True
+
+    def sym_eq(self, ex, other):
+        return isinstance(other, SFilterTok) and other is self
+
+
+class CursorContract(PContract):
+    properties = ("C07",)
+    faults = False
+    inline = GETTERS + (f"{PRJ}.JobsCursor._ids", f"{PRJ}.JobsCursor._id_set", f"{PRJ}._JobsCursorIterator.__init__", f"{JOB}.Job.__init__")
+
+    def cases(self):
+        return [{"filter": f, "cached": c} for f in (False, True) for c in (False, True)]
+
+    def mk(self, interp, case):
+        ex, ctx = interp.ex, interp.ctx
+        proj = self.fresh_project(interp)
+        rp = interp.repo
+        cur = Obj(rp.classes[f"{PRJ}.JobsCursor"])
+        flt = SFilterTok() if case["filter"] else None
+        S = SIdSeq(ex, ctx.fs, proj.p, "ids")           # ids for filter None: the listing
+        if case["filter"]:
+            S = SIdSeq.__new__(SIdSeq)
+            S.n = z3.Int("n_sel")
+            S.at = z3.Function("sel_at", z3.IntSort(), Id)
+            S.label = "ids"
+            a, b = z3.Ints("ca cb")
+            ex.assume(z3.And(S.n >= 0, z3.ForAll([a, b], z3.Implies(z3.And(0 <= a, a < b, b < S.n), S.at(a) != S.at(b)))))
+        ctx.ghost.update({"S": S, "proj": proj, "flt": flt, "calls": 0})
+        cur.fields.update(_project=proj, _filter=flt, _id_cache=S if case["cached"] else None, _id_set_cache=None)
+
+        def find(interp_, b):
+            ok = b["self"] is proj and b["filter"] is flt
+            ex.oblige(self.oname("call[_find_job_ids]:with_the_cursor's_own_filter"), z3.BoolVal(ok))
+            ctx.ghost["calls"] += 1
+            return S
+        ctx.callee_contracts[f"{PRJ}.Project._find_job_ids"] = find
+        lst = SIdSeq(ex, ctx.fs, proj.p, "listing")
+        ctx.callee_contracts[f"{PRJ}.Project.__len__"] = lambda interp_, b: SInt(lst.n)
+        ctx.callee_contracts[f"{PRJ}.Project.__contains__"] = lambda interp_, b: SBool(ctx.fs.dirs[JD.mk(proj.p, b["job"].fields["_id"].e)])
+        ctx.ghost["lst"] = lst
+        ctx.overrides[(JOB, "RLock")] = NativeStub(lambda: None, "RLock")
+        return cur, proj, S
+
+    def make_ctx(self, case):
+        ctx = super().make_ctx(case)
+        ctx.setify = lambda interp, v: SymSet(lambda i: v.member(i)) if isinstance(v, SIdSeq) else (_ for _ in ()).throw(Unsupported("set()"))
+        return ctx
+
+
+class CursorLen(CursorContract):
+    target = f"{PRJ}.JobsCursor.__len__"
+
+    def setup(self, interp, case):
+        cur, proj, S = self.mk(interp, case)
+        return [cur], {}, {"S": S}
+
+    def post(self, interp, case, pre, outcome):
+        ex, g = interp.ex, interp.ctx.ghost
+        r = outcome[1] if outcome[0] == "return" else None
+        S = pre["S"]
+        # two duplicate-free enumerations of the same set (the job directories) have the same length
+        ex.assume(z3.Implies(z3.BoolVal(not case["filter"]), g["lst"].n == S.n), why="two duplicate-free listings of one workspace have equal length (cardinality lemma, assumed)")
+        ex.oblige(self.oname("ensures:length_is_the_size_of_the_selected_id_set"), r.e == S.n if isinstance(r, SInt) else z3.BoolVal(False))
+
+
+class CursorContains(CursorContract):
+    target = f"{PRJ}.JobsCursor.__contains__"
+
+    def setup(self, interp, case):
+        cur, proj, S = self.mk(interp, case)
+        job = mk_job(interp, proj, "q", lazy=True, cached=False, path_known=False)
+        return [cur, job], {}, {"S": S, "job": job}
+
+    def post(self, interp, case, pre, outcome):
+        ex = interp.ex
+        r = outcome[1] if outcome[0] == "return" else None
+        rb = r.e if isinstance(r, SBool) else (z3.BoolVal(r) if isinstance(r, bool) else None)
+        ex.oblige(self.oname("ensures:membership_iff_the_job_id_is_in_the_selected_id_set"), rb == pre["S"].member(pre["job"].me) if rb is not None else z3.BoolVal(False))
+
+
+class CursorGetitem(CursorContract):
+    target = f"{PRJ}.JobsCursor.__getitem__"
+
+    def make_ctx(self, case):
+        ctx = super().make_ctx(case)
+
+        def sym_index(ex, o, k):
+            raise Unsupported("index")
+        return ctx
+
+    def setup(self, interp, case):
+        cur, proj, S = self.mk(interp, case)
+        i = z3.Int("index")
+        interp.ex.assume(z3.And(i >= 0, i < S.n))
+        S.sym_getitem = lambda ex, k, S=S: SId(S.at(k.e)) if isinstance(k, SInt) else (_ for _ in ()).throw(Unsupported("slice of a symbolic id list"))
+        return [cur, SInt(i)], {}, {"S": S, "i": i, "proj": proj}
+
+    def post(self, interp, case, pre, outcome):
+        ex = interp.ex
+        j = outcome[1] if outcome[0] == "return" else None
+        ok = isinstance(j, Obj) and j.cls.name == "Job" and isinstance(j.fields.get("_id"), SId) and j.fields.get("_project") is pre["proj"]
+        ex.oblige(self.oname("ensures:indexing_returns_the_handle_of_the_i-th_selected_id"), j.fields["_id"].e == pre["S"].at(pre["i"]) if ok else z3.BoolVal(False))
+
+
+CONTRACTS += [CursorLen(), CursorContains(), CursorGetitem()]
